@@ -332,6 +332,34 @@ def _read(sim, m, a):
     return thunk
 
 
+@op("aave.stress_read")
+def _stress_read(sim, m, a):
+    """a strategy looks at its account under a stressed price vector: it hands the market this bar's status again with other
+    prices (public set_market_status, no data row: the market looks its own row up), reads the figures, and puts the real
+    prices back"""
+    from demeter.broker import MarketStatus
+
+    factors = {k.upper(): D(v) for k, v in a.get("factors", {}).items()}
+    sim.last_call = {"factors": {k: str(v) for k, v in factors.items()}}
+
+    def thunk():
+        ts = sim.actuator._currents.timestamp
+        real = sim.prices_now()
+        stressed = real.copy()
+        for t, f in factors.items():
+            if t in stressed.index:
+                stressed[t] = stressed[t] * f
+        m.set_market_status(MarketStatus(ts, None), stressed)
+        try:
+            out = {"health_factor": m.health_factor, "max_ltv": m.max_ltv, "liquidation_threshold": m.liquidation_threshold,
+                   "net_value": m.get_market_balance().net_value}
+        finally:
+            m.set_market_status(MarketStatus(ts, None), real)
+        return out
+
+    return thunk
+
+
 @op("broker.add")
 def _wallet_add(sim, m, a):
     t = sim.token(a["token"])
